@@ -3,7 +3,7 @@ from __future__ import annotations
 
 import json
 
-from spverif.core.util import attempt, exc_sig, documented_errors, rand_uint, rand_bytes
+from spverif.core.util import attempt, exc_sig, documented_errors, rand_uint, rand_bytes, hist_len
 from spverif.ref import cfdp as R
 from spverif.ref import pus as P
 from spverif.ref.crc import crc16
@@ -182,7 +182,7 @@ def k_trailer_after_setters(ctx, which, seed):
     if which == "tc":
         t = c02.build(r.choice(c02.ROUTES), r.getrandbits(11), r.getrandbits(14), r.getrandbits(8), r.getrandbits(8), r.getrandbits(16), r.getrandbits(4), r.randbytes(r.randrange(0, 30)))
         steps = []
-        for i in range(r.randrange(1, 7)):
+        for i in range(hist_len(r, 1, 7)):
             op = r.choice(("pack", "calc_crc", "apid", "seq_count", "source_id", "app_data_same_len", "app_data", "to_space_packet", "unpack_own", "poison", "calc_crc_pack_cached"))
             steps.append(op)
             if op == "pack":
@@ -215,7 +215,7 @@ def k_trailer_after_setters(ctx, which, seed):
         t = c03.build(r.choice(("ctor", "composite")), r.getrandbits(11), r.getrandbits(14), r.getrandbits(8), r.getrandbits(8), r.getrandbits(16), r.getrandbits(16),
                       r.getrandbits(4), r.getrandbits(3), ts, r.randbytes(r.randrange(0, 30)))
         steps = []
-        for i in range(r.randrange(1, 7)):
+        for i in range(hist_len(r, 1, 7)):
             op = r.choice(("pack", "calc_crc", "apid", "seq_count", "tm_data", "to_space_packet", "unpack_own", "poison", "calc_crc_pack_cached"))
             steps.append(op)
             if op == "pack":
